@@ -55,7 +55,7 @@ fn check(src: &str) -> Option<(String, String)> {
 }
 
 pub fn run(ctx: &Ctx) -> Report {
-    let maxlen = ctx.pick(6usize, 8usize);
+    let maxlen = ctx.pick(6usize, 9usize);
     let mut rep = Report::new("all strings of length 0..=L over {a, space, TAB, LF, CR, e-acute}; for each: count_lines, every line's span/text, get_pos_pair at every index 0..=len+10, against a reference written from the doc comments; non-trivial = string containing a newline and a non-newline character");
     for len in 0..=maxlen {
         let n = 6u64.pow(len as u32);
